@@ -21,7 +21,7 @@ WRITE_MODULES = ('server::streaming::segments::logs', 'server::streaming::segmen
                  'server::streaming::systems::storage', 'server::quic', 'server::tcp', 'server::http::http_server', 'server::server_error', 'server::streaming::partitions::storage')
 
 
-def _rebuilt_length(ctx, rep):
+def _rebuilt_length(ctx, rep, rid='R19.b'):
     """the message handed back after decryption carries the plaintext length together with the plaintext payload"""
     PM = 'iggy::models::messages::PolledMessage'
     SYSF = SYS + '::poll_messages'
@@ -37,10 +37,19 @@ def _rebuilt_length(ctx, rep):
                     pl, ln_ = f_.get('payload', ''), f_.get('length', '')
                     found += 1
                     ok = 'decrypt' in pl and 'decrypt' in ln_ and 'len(' in ln_
-                    rep.ob('R19.b', SYSF, 'decrypted message carries the plaintext length', ok, '%s:%s' % (kb.file, st.get('ln')), 'length: %s' % ln_[:80] if ok else
+                    rep.ob(rid, SYSF, 'decrypted message carries the plaintext length', ok, '%s:%s' % (kb.file, st.get('ln')), 'length: %s' % ln_[:80] if ok else
                            'the message rebuilt after decryption has payload `%s` but length `%s`: the reader is told the ciphertext length for a plaintext payload' % (pl[:60], ln_[:60]))
     if not found:
-        rep.anchor_lost('R19.b', 'PolledMessage rebuilt in System::poll_messages')
+        # in-place form: `message.payload = decrypted` must come with `message.length = len(decrypted)`
+        import forms as forms_
+        pa = [x for x in forms_.field_assignments(ctx, PM, 'payload') if x[0] == SYSF]
+        la = [x for x in forms_.field_assignments(ctx, PM, 'length') if x[0] == SYSF]
+        if not pa:
+            rep.anchor_lost(rid, 'PolledMessage rebuilt (or its payload replaced) in System::poll_messages')
+        else:
+            ok = bool(la) and all('decrypt' in f[4] and 'len(' in f[4] for f in la)
+            rep.ob(rid, SYSF, 'decrypted message carries the plaintext length', ok, '%s:%s' % (pa[0][1].file, pa[0][3]), 'length: %s' % la[0][4][:80] if ok else
+                   'the payload of a polled message is replaced by the plaintext (`%s`) but its length field is %s: the reader is told the ciphertext length for a plaintext payload' % (pa[0][4][:60], ('set to `%s`' % la[0][4][:60]) if la else 'left as it was'))
 
 
 def run(ctx, rep):
@@ -57,7 +66,7 @@ def run(ctx, rep):
         ok, detail, it = loop_coverage(b, e)
         it_ok = it is not None and has_var(it, 'messages')
         rep.ob('R19.a', SYS + '::append_messages', 'every message of the batch', ok and it_ok, e.where(), detail if ok and it_ok else 'not every message of the batch is encrypted (%s)' % detail)
-        arg = canon(b.pexpr_operand(e.args[1]), 0, 1)
+        arg = canon(b.pexpr_operand(e.args[1], 0, frozenset(), (e.bb, "t")), 0, 1)
         rep.ob('R19.a', SYS + '::append_messages', 'encrypts the payload', arg.endswith('.payload'), e.where(), 'encrypt(%s)' % arg)
         # payload assignment from the Ok arm
         asg = []
@@ -137,7 +146,7 @@ def run(ctx, rep):
         built = [x for x in kb.reach for s_ in kb.stmts(x) if (s_.get('rv') or {}).get('r') == 'agg' and (s_['rv'].get('adt') or '').endswith('PolledMessage')]
         okb = bool(built) and all(success_dominates(kb, dcall, x) for x in built)
         rep.ob('R19.b', SYS + '::poll_messages', 'no path returns stored bytes undecrypted', okb, dcall.where(), 'a message is rebuilt only on the success edge of decrypt' if okb else 'a message is returned without a successful decrypt')
-        arg = canon(kb.pexpr_operand(dcall.args[1]), 0, 1)
+        arg = canon(kb.pexpr_operand(dcall.args[1], 0, frozenset(), (dcall.bb, "t")), 0, 1)
         rep.ob('R19.b', SYS + '::poll_messages', 'decrypts the payload', arg.endswith('.payload'), dcall.where(), 'decrypt(%s)' % arg)
     elif len(dec) != 1:
         rep.anchor_lost('R19.b', 'decrypt in System::poll_messages')
@@ -165,7 +174,7 @@ def run(ctx, rep):
                 bad.append(x)
         rep.ob('R19.b', SYS + '::poll_messages', 'no path returns stored bytes undecrypted', not bad, pb.where(bad[0]) if bad else None,
                'Ok without decrypt only when no encryptor / nothing polled' if not bad else 'an Ok return skips decryption although an encryptor may be configured')
-        arg = canon(pb.pexpr_operand(dcall.args[1]), 0, 1)
+        arg = canon(pb.pexpr_operand(dcall.args[1], 0, frozenset(), (dcall.bb, "t")), 0, 1)
         rep.ob('R19.b', SYS + '::poll_messages', 'decrypts the payload', arg.endswith('.payload'), dcall.where(), 'decrypt(%s)' % arg)
     _rebuilt_length(ctx, rep)
 
